@@ -134,7 +134,7 @@ func runC15(c *Ctx) {
 		c.R.Rule("C15.append", "E4 (see C01.append) in every configuration: both variants leave bytes already in the buffer alone")
 		n := runBufDisc(c, p, "C15.append")
 		c.R.Floor("C15.append", p.Cfg.Name, n, 90)
-		ruleEndian(c, p)
+		ruleEndian(c, p, "C15.endian")
 		ruleGrowByAppend(c, p)
 		ruleReaderSource(c, p, "C15.source")
 	}
@@ -144,8 +144,7 @@ func runC15(c *Ctx) {
 }
 
 // ruleEndian (C15.endian)
-func ruleEndian(c *Ctx, p *core.Program) {
-	rule := "C15.endian"
+func ruleEndian(c *Ctx, p *core.Program, rule string) {
 	c.R.Rule(rule, "every encoding/binary accessor used by the column codecs and the multi-word helpers (bin*/binPut*) is LittleEndian; in the multi-word helpers the byte range b[lo:hi] given to PutUint64 / Uint64 equals the in-memory offset (types.Sizes.Offsetsof along the field path) of the struct word it carries, so the pure-Go image equals the memory image the default build copies")
 	cfg := p.Cfg.Name
 	sizes := p.Pkgs[core.PkgProto].TypesSizes
